@@ -239,6 +239,8 @@ class TheJoker:
                 max_posterior_samples=max_posterior_samples,
                 n_linear_samples=n_linear_samples,
                 return_all_logprobs=return_all_logprobs,
+                n_prior_samples=n_prior_samples,
+                randomize_prior_order=randomize_prior_order,
             )
 
         else:
@@ -352,6 +354,7 @@ class TheJoker:
                 growth_factor=growth_factor,
                 n_linear_samples=n_linear_samples,
                 max_prior_samples=max_prior_samples,
+                randomize_prior_order=randomize_prior_order,
             )
 
         else:
